@@ -169,7 +169,18 @@ func (r *Run) unsupported(format string, args ...interface{}) error {
 	return fmt.Errorf("unsupported: %s", msg)
 }
 
+// thoroughTier: clauses tagged THOROUGH are generated only in the thorough tier (their obligations need
+// minutes of solver time; the quick tier says so in its evidence).
+var thoroughTier bool
+var skippedThorough bool
+
 func (r *Run) active(tags []string) bool {
+	for _, t := range tags {
+		if t == "THOROUGH" && !thoroughTier {
+			skippedThorough = true
+			return false
+		}
+	}
 	if r.prop == "" || len(tags) == 0 || r.prop == "C03" {
 		// the no-panic sweep (C03) leans on every functional clause of the functions it covers
 		return true
